@@ -345,6 +345,10 @@ var richForms = []richForm{
 		// NOT over an un-aliased table, whole rows in the same result
 		return gen.Pick(c.R, []string{"SELECT s1, *, COUNT(*) AS c FROM t1 WHERE NOT (n1 > " + numConst(c, d) + ") GROUP BY s1", "SELECT * FROM t1 WHERE NOT (n1 >= " + numConst(c, d) + " AND s1 = 'zz')", "SELECT s1, * FROM t1 WHERE NOT b1 = true GROUP BY s1"})
 	}},
+	{"plain.dual-alias-subquery", false, false, func(c *fw.Case, d *richDoc, vf string) string {
+		// a row-scoped subquery over dual under an alias: the row is the scope itself
+		return gen.Pick(c.R, []string{"SELECT (SELECT COUNT(*) AS n FROM t1) AS c, d.meta FROM dual d", "SELECT (SELECT rid FROM t1 WHERE n1 >= 0) AS ids FROM dual x", "SELECT d.meta, (SELECT ip FROM `<-meta`) AS m FROM dual d WHERE EXISTS (SELECT rid FROM t1)"})
+	}},
 	{"plain.group-star", false, false, func(c *fw.Case, d *richDoc, vf string) string {
 		return "SELECT s1, *, COUNT(*) AS c, AVG(n1) AS a FROM t1 GROUP BY s1 ORDER BY c DESC, s1"
 	}},
@@ -492,6 +496,16 @@ var typeErrorQueries = []struct{ name, sql string }{
 	{"badrow.alias.derived", "SELECT q.rid, q.obj.k AS k FROM (SELECT rid, obj FROM t1) q"},
 	{"badrow.alias.case", "SELECT x.rid, CASE WHEN x.obj.k >= 0 THEN 'p' ELSE 'n' END AS sign FROM t1 x"},
 	{"alias.index-oob", "SELECT x.rid, `x.arr[99]` AS e FROM t1 x"},
+	// a column that is no boolean as a condition: a type error, never "false"
+	{"case.cond-string", "SELECT rid, CASE WHEN s1 THEN 1 ELSE 0 END AS v FROM t1"},
+	{"case.cond-number.where", "SELECT rid FROM t1 WHERE CASE WHEN n1 THEN true ELSE false END"},
+	{"badrow.case.cond-object", "SELECT rid, CASE WHEN obj THEN 'y' ELSE 'n' END AS v FROM t1"},
+	{"case.cond-string.cte", "WITH c1 AS (SELECT rid, CASE WHEN x.s1 THEN 1 ELSE 0 END AS v FROM t1 x) SELECT * FROM c1"},
+	// a panic inside the ON of a PARALLEL join (the third row's z1 is NULL): an error, and the join returns
+	{"parpanic.join-on", "SELECT x.rid, y.un1 FROM t1 x PARALLEL JOIN u1 y ON x.n1 >= y.un1 AND VPANICNULL(x.z1)"},
+	{"parpanic.join-on.left", "SELECT x.rid, y.un1 FROM t1 x PARALLEL LEFT JOIN u1 y ON x.rid >= 0 AND IF(VPANICNULL(x.z1), TRUE, FALSE)"},
+	// the subquery of an aliased dual row
+	{"cte", "WITH c1 AS (SELECT rid, ('x' + 1) AS v FROM t1) SELECT (SELECT COUNT(*) AS n FROM c1) AS c FROM dual d"},
 	{"selector.from", "SELECT * FROM `t1[last]`"},
 	{"selector.range", "SELECT * FROM `t1[(1:x)]` WHERE n1 >= 0"},
 	{"selector.column", "SELECT rid, `arr[abc].e` AS v FROM t1"},
